@@ -25,6 +25,8 @@ TRACE_CFG = """CONSTANTS
  DevNoExpiry = FALSE
  DevLogoutKeeps = FALSE
  DevLimiterPerWindowStart = FALSE
+ DevAnyCookieValid = FALSE
+ PairJars = TRUE
 INIT TInit
 NEXT TNext
 POSTCONDITION Reached
